@@ -110,13 +110,26 @@ pub fn check(case: &Case, rec: &mut Rec) -> Option<Failure> {
     None
 }
 
+/// "every multiplier": zero, the usual small ones, NEGATIVE ones (the bands swap sides: upper = average + m·ATR lies
+/// below the average), fractional values that are not exactly representable (and not f32-representable), tiny and
+/// huge ones, and a random one of either sign
+pub const MULTIPLIERS: &[f64] = &[0.0, 0.5, 1.0, 2.0, 3.0, 10.0, -1.0, -2.0, -0.5, -2.5, -1.618, 2.1, 1.618, 0.1, 1e-3, 1e-9, 1e3, 1e6, -1e-9, -1e6];
+pub fn multiplier(rng: &mut crate::rng::Rng) -> f64 {
+    if rng.chance(0.2) {
+        let mag = 10f64.powf(rng.unit() * 6.0 - 3.0);
+        if rng.chance(0.5) { -mag } else { mag }
+    } else {
+        *rng.pick(MULTIPLIERS)
+    }
+}
+
 pub fn gen_case(r: &mut Runner, ind: &str, maxp: usize, maxlen: usize) -> Case {
     let np = crate::ind::arity(ind).unwrap().0;
     let mut ps: Vec<usize> = (0..np).map(|_| gen::period(&mut r.rng, maxp)).collect();
     if np == 3 && r.rng.chance(0.2) {
         ps[1] = ps[0]; // equal fast/slow
     }
-    let ms: Vec<f64> = if crate::ind::arity(ind).unwrap().1 == 1 { vec![*r.rng.pick(&[0.0, 0.5, 1.0, 2.0, 3.0, 10.0])] } else { vec![] };
+    let ms: Vec<f64> = if crate::ind::arity(ind).unwrap().1 == 1 { vec![multiplier(&mut r.rng)] } else { vec![] };
     let len = r.rng.range(1, maxlen);
     let regime = *r.rng.pick(gen::REGIMES);
     let scale = *r.rng.pick(&[1e-3, 1.0, 100.0, 1e6, 1e9, 8.900295434028806e-308]);
@@ -145,16 +158,19 @@ pub fn generate(r: &mut Runner) {
             1 => (1..=3).map(|p| vec![p]).collect(),
             _ => vec![vec![1, 1, 1], vec![1, 2, 1], vec![2, 1, 3], vec![2, 2, 2], vec![3, 2, 1]],
         };
+        // KeltnerChannel: the whole small scope once per multiplier of {2, -1.5, 2.1, 0} (positive, negative, inexact, zero)
+        let mults: Vec<Vec<f64>> = if ind == "KeltnerChannel" { vec![vec![2.0], vec![-1.5], vec![2.1], vec![0.0]] } else { vec![vec![]] };
         for ps in combos {
-            for code in 0..a.len().pow(depth as u32) {
-                let ms: Vec<f64> = if ind == "KeltnerChannel" { vec![2.0] } else { vec![] };
-                let mut c = Case::new("C02", "scalars-exhaustive", ind, &ps, &ms);
-                let mut k = code;
-                for _ in 0..depth {
-                    c.ops.push(Op::Next(a[k % a.len()]));
-                    k /= a.len();
+            for ms in &mults {
+                for code in 0..a.len().pow(depth as u32) {
+                    let mut c = Case::new("C02", "scalars-exhaustive", ind, &ps, ms);
+                    let mut k = code;
+                    for _ in 0..depth {
+                        c.ops.push(Op::Next(a[k % a.len()]));
+                        k /= a.len();
+                    }
+                    r.run(c, true);
                 }
-                r.run(c, true);
             }
         }
     }
@@ -165,8 +181,24 @@ pub fn generate(r: &mut Runner) {
         let ind = INDS[i % INDS.len()];
         let c = gen_case(r, ind, 1024, maxlen);
         let nt = c.ops.len() >= 3;
+        if let Some(m) = c.ms.first() {
+            r.count(if *m < 0.0 { "multiplier:negative" } else if *m == 0.0 { "multiplier:zero" } else { "multiplier:positive" });
+        }
         r.run(c, nt);
+    }
+    // every listed multiplier at least once for both band indicators, on bars (and scalars for KeltnerChannel)
+    for ind in ["KeltnerChannel", "ChandelierExit"] {
+        for m in MULTIPLIERS {
+            for rep in 0..(if r.tier == Tier::Quick { 2 } else { 6 }) {
+                let mut c = gen_case(r, ind, if rep % 2 == 0 { 8 } else { 200 }, maxlen.min(300));
+                c.ms = vec![*m];
+                c.kind = format!("{}-multiplier-sweep", c.kind);
+                let nt = c.ops.len() >= 3;
+                r.count(if *m < 0.0 { "multiplier:negative" } else if *m == 0.0 { "multiplier:zero" } else { "multiplier:positive" });
+                r.run(c, nt);
+            }
+        }
     }
 }
 
-pub const RULE: &str = "small scope: every scalar sequence of the stated depth over {-2,0,1,3,1e6} for periods 1..=3 (period 1 ⇒ α = 1; MACD with equal and inverted fast/slow); sampled: periods to 1024 (equal fast/slow forced in 20% of MACD cases), multipliers {0,0.5,1,2,3,10}, scalar streams of any sign and valid bars (gap up / gap down / inside bars arise from the walk, alt and spike regimes), all prefixes checked. Non-trivial = at least 3 inputs (recursion exercised beyond seeding); distinct = distinct encodings.";
+pub const RULE: &str = "small scope: every scalar sequence of the stated depth over {-2,0,1,3,1e6} for periods 1..=3 (period 1 ⇒ α = 1; MACD with equal and inverted fast/slow; KeltnerChannel once per multiplier of {2,-1.5,2.1,0}); sampled: periods to 1024 (equal fast/slow forced in 20% of MACD cases), multipliers of KeltnerChannel/ChandelierExit from {0,0.5,1,2,3,10,-1,-2,-0.5,-2.5,-1.618,2.1,1.618,0.1,1e-3,1e-9,1e3,1e6,-1e-9,-1e6} (zero, negative — the bands swap sides —, fractional values not representable in f64/f32, tiny, huge) or, in a fifth of the cases, ±10^u with u uniform in [-3,3]; in addition a sweep running every listed multiplier at least twice (thorough: 6×) per band indicator; scalar streams of any sign and valid bars (gap up / gap down / inside bars arise from the walk, alt and spike regimes), all prefixes checked; tolerance tau(t)·M·max(1,|multiplier|). Non-trivial = at least 3 inputs (recursion exercised beyond seeding); distinct = distinct encodings.";
